@@ -255,6 +255,9 @@ func uriSamples(t *rapid.T, label string) []fmtSample {
 		{scheme + "://", false},
 		{"", false},
 		{host, false},
+		// an authority without a host name: only a port and / or user info
+		{scheme + "://" + rapid.SampledFrom([]string{":80", ":", ":8080"}).Draw(t, label+"PO") + path + q, false},
+		{scheme + "://user@" + port + path, false},
 	}
 }
 
